@@ -10,7 +10,7 @@ dst = '/tmp/harmcheck_' + name
 subprocess.run(['rsync', '-rlpgoD', '--checksum', '--delete', '--exclude', 'target', '--exclude', '.git', '/repo/', dst + '/'], check=True)
 p = subprocess.run('git apply --unsafe-paths --directory=%s %s/patch.diff' % (dst, seed), shell=True, cwd='/', capture_output=True, text=True)
 res = {'seed': name, 'property': meta.get('property'), 'files': meta.get('files'), 'why_equivalent': meta.get('why_equivalent'), 'applied': p.returncode == 0, 'checks': {}}
-props = ['C02', 'C05', 'C06', 'C07', 'C09', 'C10', 'C14', 'C15', 'C19', 'C20']
+props = ['C02', 'C05', 'C06', 'C07', 'C08', 'C09', 'C10', 'C14', 'C15', 'C19', 'C20']
 for prop in props:
     for tier in ('quick', 'thorough'):
         r = subprocess.run('%s/check %s --tier %s --repo %s --no-evidence' % (root, prop, tier, dst), shell=True, cwd=root, capture_output=True, text=True)
